@@ -755,7 +755,9 @@ func init() {
 		ID: "C05T", Title: "C05 with the clock seam", DesignRef: "DESIGN.md §4 C05 / §9.6",
 		Rule:      "clocked sub-run of C05: the clock stands at every position {N-1s, N-1ns, N, N+1ns, N+1s} around the next-update instant N of every base and delta CRL of 1..3 distribution points (and long before / after), x zone, caller's fetcher and real HTTPFetcher",
 		Scenarios: c05tScenarios,
-		Alphabet:  func(mc.Tier) map[string]int { return map[string]int{"clock_offsets": offs - 2, "zones": 3, "max_points": 3} },
+		Alphabet: func(mc.Tier) map[string]int {
+			return map[string]int{"clock_offsets": offs - 2, "zones": 3, "max_points": 3}
+		},
 		Guards: func(s *mc.Stats, t mc.Tier) []string {
 			var w []string
 			for _, o := range []string{"verdict:OK", "verdict:Unknown"} {
